@@ -155,6 +155,7 @@ def execH (h : String) (o : Outcome) : List HStmt → HSt → Option (List HObs)
     | .panic => finishH s
     | .err => execH h o rest { s with err := true }
     | .ok _ => execH h o rest { s with err := false }
+    | .pass _ _ => execH h o rest { s with err := false }
   | .flagFalse :: rest, s => execH h o rest { s with flag := false }
   | .returnResults :: _, s => finishH s
   | .returnCall :: _, s =>
@@ -162,6 +163,7 @@ def execH (h : String) (o : Outcome) : List HStmt → HSt → Option (List HObs)
     | .panic => finishH s
     | .err => finishH { s with err := true }
     | .ok _ => finishH { s with err := false }
+    | .pass _ _ => finishH { s with err := false }
   | .unknown _ :: _, _ => none
 
 end Wm.GoMetrics
